@@ -49,6 +49,15 @@ def cases(tier, seed):
     for n in range(0, len(tt), 30):
         chunk = tt[n : n + 30]
         specs.append({"id": "tt:%s,%s" % (chunk[0][0][1], chunk[0][1][1]), "pairs": [list(p) for p in chunk]})
+    # unrelated three-digit denominators: exact crossing parameters with denominators ~1e16
+    rnd = progs.p_shapes("rnd", ["sqA", "sqB", "triA", "bar", "dia", "L"], both=False)
+    for x in rnd:
+        specs.append({"id": "param:%s" % al.expr_id(x), "X": x, "Ys": [y for y in rnd if y != x], "only_inter": True})
+    # a crossing whose parameter has a denominator > 1e9 while the point itself is small
+    rect = ["V", [[0, 0], [4, 0], [4, 1], [0, 1]]]
+    pent = ["V", [["300000003/300000002", "-1"], [3, -2], [5, "1/2"], [3, 3], ["300000003/300000002", 2]]]
+    specs.append({"id": "param:targeted", "exprs": [[o, rect, pent] for o in progs.OPS4] + [[o, pent, rect] for o in progs.OPS4]})
+    specs.append({"id": "param:targeted-inter", "X": rect, "Ys": [pent], "only_inter": True})
     for v in ("int", "frac", "q1001", "q100003"):
         for x, y, z in [("sqA", "triA", "bar"), ("sqB", "dia", "L"), ("triA", "sqB", "U")]:
             e = [progs.L("P.%s#%s" % (n, v)) for n in (x, y, z)]
